@@ -619,6 +619,33 @@ def canon_class_refs(fn, world, modname, prefix="dali.frame."):
     return cnt[0]
 
 
+def expand_map_loops(fn):
+    """`for x in map(F, it): BODY` (one iterable, F a plain name or
+    attribute chain) is `for x__src in it: x = F(x__src); BODY` - map() is
+    lazy, so F is applied exactly where the loop asks for the next element.
+    In place; returns the number of loops rewritten."""
+    n_done = 0
+    for n in ast.walk(fn):
+        if not (isinstance(n, (ast.For, ast.AsyncFor)) and isinstance(
+                n.iter, ast.Call) and isinstance(n.iter.func, ast.Name) and
+                n.iter.func.id == "map" and len(n.iter.args) == 2 and
+                not n.iter.keywords and isinstance(n.target, ast.Name)):
+            continue
+        f_, it = n.iter.args
+        if not isinstance(f_, (ast.Name, ast.Attribute)):
+            continue
+        src = n.target.id + "__src"
+        n.body = [ast.copy_location(ast.Assign(
+            [ast.Name(n.target.id, ast.Store())],
+            ast.Call(f_, [ast.Name(src, ast.Load())], [])), n)] + n.body
+        n.target = ast.Name(src, ast.Store())
+        n.iter = it
+        n_done += 1
+    if n_done:
+        ast.fix_missing_locations(fn)
+    return n_done
+
+
 def split_conditional_augassign(fn):
     """`x OP= (A if t else B)` is `if t: x OP= A  else: x OP= B`, and an
     augmented assignment by the operation's neutral element (`>>= 0`,
